@@ -5,6 +5,8 @@ import LocustModel.Store.Proto
   for the ingestion-latency stream.
   Output:  <model listing + catalogue> TAB <OK | BAD … | SKIP>
     model: files predicted by the machine model (catalogue file, log segments, partition files) and its catalogue;
+           the file NAMES of a partition created and merged away within the flush in flight are read off the observed
+           listing (`listingModelObs`: its sub-partition keys are in no catalogue) — existence and lifetime are predicted;
     spec : after a completed flush the listing must be exactly {meta} ∪ files of the catalogue found on disk ∪ the
            segments of the calls that returned since that flush froze the buffers; the segments of all calls that
            returned before an ANSWERED force_flush was registered must be gone;
@@ -32,7 +34,7 @@ def step (line : String) : String :=
   match runLine2 line with
   | none => "bad-op\tbad-op"
   | some (s, ltok, etok) =>
-    let model := listingModel s ++ " " ++ catalogueModel s ++ (if etok.isSome then " " ++ effectsModel s else "") ++
+    let model := listingModelObs s ltok ++ " " ++ catalogueModel s ++ (if etok.isSome then " " ++ effectsModel s else "") ++
       (if s.inter then s!" A={s.done.length}" else "")
     let specL := match ltok with
       | some l => if s.lastWasFlush then judgeListingInter s.lastObs s.sinceFreezeN l else "SKIP"
